@@ -18,10 +18,13 @@ import (
 type MatSpec struct {
 	Named   string  `json:"named,omitempty"`
 	Letters gen.B   `json:"letters,omitempty"`
-	Pair    [][]int `json:"pair,omitempty"`  // Pair[i][j] = score(Letters[i], Letters[j])
+	Pair    [][]int `json:"pair,omitempty"`    // Pair[i][j] = score(Letters[i], Letters[j])
 	DelGap  []int   `json:"del_gap,omitempty"` // score(Letters[i], Gap)
 	InsGap  []int   `json:"ins_gap,omitempty"` // score(Gap, Letters[i])
 	Open    int     `json:"open,omitempty"`    // score(Gap, Gap)
+	// Scale multiplies every score (0 = 1). Scores stay integers that float64 represents
+	// exactly (and sums of a few hundred of them too), but not float32.
+	Scale int `json:"scale,omitempty"`
 }
 
 var shippedMatrices = map[string]func() align.SubstitutionMatrix{
@@ -56,20 +59,24 @@ func (s MatSpec) build() (align.SubstitutionMatrix, ref.Matrix, error) {
 	}
 	m := align.SubstitutionMatrix{}
 	r := ref.Matrix{}
+	sc := float64(max(s.Scale, 1))
+	if s.Scale > 1<<30 {
+		return nil, nil, fmt.Errorf("scale too large")
+	}
 	for i := 0; i < n; i++ {
 		if len(s.Pair[i]) != n || s.Letters[i] == 255 {
 			return nil, nil, fmt.Errorf("malformed matrix spec")
 		}
 		for j := 0; j < n; j++ {
 			k := [2]byte{s.Letters[i], s.Letters[j]}
-			m[k], r[k] = float64(s.Pair[i][j]), float64(s.Pair[i][j])
+			m[k], r[k] = sc*float64(s.Pair[i][j]), sc*float64(s.Pair[i][j])
 		}
 		k := [2]byte{s.Letters[i], 255}
-		m[k], r[k] = float64(s.DelGap[i]), float64(s.DelGap[i])
+		m[k], r[k] = sc*float64(s.DelGap[i]), sc*float64(s.DelGap[i])
 		k = [2]byte{255, s.Letters[i]}
-		m[k], r[k] = float64(s.InsGap[i]), float64(s.InsGap[i])
+		m[k], r[k] = sc*float64(s.InsGap[i]), sc*float64(s.InsGap[i])
 	}
-	m[[2]byte{255, 255}], r[[2]byte{255, 255}] = float64(s.Open), float64(s.Open)
+	m[[2]byte{255, 255}], r[[2]byte{255, 255}] = sc*float64(s.Open), sc*float64(s.Open)
 	return m, r, nil
 }
 
@@ -168,6 +175,7 @@ func genMatSpec(t *rapid.T, o matOpts) MatSpec {
 			s.InsGap[i] = g.Draw(t, "ins")
 		}
 	}
+	s.Scale = rapid.SampledFrom([]int{0, 0, 0, 0, 1000003, 1 << 25, 16777217, 7}).Draw(t, "scale")
 	s.Open = rapid.IntRange(o.openLo, o.openHi).Draw(t, "open")
 	if o.openNonZero && s.Open == 0 {
 		s.Open = o.openLo
@@ -270,8 +278,9 @@ func applyMutation(c AlignCase, m align.SubstitutionMatrix, rm ref.Matrix) bool 
 	if mu.Which != "pair" && mu.Delta > 0 {
 		return false
 	}
-	m[k] += float64(mu.Delta)
-	rm[k] += float64(mu.Delta)
+	sc := float64(max(c.M.Scale, 1))
+	m[k] += sc * float64(mu.Delta)
+	rm[k] += sc * float64(mu.Delta)
 	return true
 }
 
@@ -279,6 +288,18 @@ type alignResult struct {
 	steps  []byte
 	ai, bi int
 	score  float64
+	raw    []align.Step // the slice the library returned
+}
+
+// stepsUnchanged verifies that the slice returned earlier still holds the same steps (a later
+// call must not overwrite a result the caller still holds).
+func (r alignResult) stepsUnchanged() error {
+	for i, s := range r.raw {
+		if i >= len(r.steps) || byte(s) != r.steps[i] {
+			return fmt.Errorf("the steps returned by an earlier call were overwritten by a later call: were %s, are now %v", stepString(r.steps), r.raw)
+		}
+	}
+	return nil
 }
 
 // runAlign calls Global or Local, checking that inputs are untouched and nothing panics.
@@ -311,6 +332,7 @@ func runAlign(c AlignCase, m align.SubstitutionMatrix) (alignResult, error) {
 	for i, s := range steps {
 		res.steps[i] = byte(s)
 	}
+	res.raw = steps
 	return res, nil
 }
 
@@ -374,5 +396,9 @@ func matDesc(s MatSpec) string {
 	if s.Named != "" {
 		return s.Named
 	}
-	return fmt.Sprintf("letters=%q pair=%v del=%v ins=%v open=%d", []byte(s.Letters), s.Pair, s.DelGap, s.InsGap, s.Open)
+	d := fmt.Sprintf("letters=%q pair=%v del=%v ins=%v open=%d", []byte(s.Letters), s.Pair, s.DelGap, s.InsGap, s.Open)
+	if s.Scale > 1 {
+		d += fmt.Sprintf(" (all scores x%d)", s.Scale)
+	}
+	return d
 }
